@@ -168,7 +168,7 @@ const c08Fixed = `
 }
 `
 
-const c08TTLKeys = 24
+const c08TTLKeys = 12
 
 type c08Req struct {
 	Kind string `json:"kind"` // sum genint genstr wrapint wrapstr create get put del preview incr shared pure
